@@ -40,13 +40,26 @@ type burnHist struct {
 
 var zcnOwner = encryption.Hash("verif zcn owner")
 
-// ethAddr: raw strings; index 1 and 2 differ only in letter case (the contract keys nonces by the raw string)
+// ethAddr: raw target strings in spelling families. The contract keys the burn nonce by the exact string, so
+// every spelling is an address of its own: 0 plain; 1/2 the same digits in mixed / lower case; 3-6 the plain
+// address with a leading space, trailing space, leading tab, trailing newline; 7 another address
 func ethAddr(i int) string {
+	const plain = "0xAbCdEf0000000000000000000000000000000001"
 	switch i {
+	case 0:
+		return plain
 	case 1:
-		return "0xAbCdEf0000000000000000000000000000000001"
+		return "0xABCDEF0000000000000000000000000000000001"
 	case 2:
 		return "0xabcdef0000000000000000000000000000000001"
+	case 3:
+		return " " + plain
+	case 4:
+		return plain + " "
+	case 5:
+		return "\t" + plain
+	case 6:
+		return plain + "\n"
 	}
 	return fmt.Sprintf("0x%040x", 0x5000+i)
 }
@@ -263,7 +276,7 @@ func genBurn(r *vh.Rand) burnHist {
 		h.Min = r.PickU64([]uint64{0, 1, 1 << 53, 1<<63 - 1, 1 << 63, 1<<64 - 1, 4000000000000000000})
 	}
 	if r.Chance(1, 5) {
-		h.Seed = append(h.Seed, seedNonce{r.Intn(4), r.Pick64([]int64{1, 41, 1<<31 - 1, 1 << 32, 1<<53 + 1, 1<<63 - 40})})
+		h.Seed = append(h.Seed, seedNonce{r.Intn(8), r.Pick64([]int64{1, 41, 1<<31 - 1, 1 << 32, 1<<53 + 1, 1<<63 - 40})})
 	}
 	cur := h.Min
 	n := r.Range(1, 25)
@@ -276,7 +289,10 @@ func genBurn(r *vh.Rand) burnHist {
 			}
 			continue
 		}
-		o := burnOp{K: "burn", C: r.Intn(4), A: r.Intn(4)}
+		o := burnOp{K: "burn", C: r.Intn(4), A: r.Intn(8)}
+		if r.Chance(1, 2) {
+			o.A = []int{0, 0, 3, 4, 5, 6, 1}[r.Intn(7)] // stay inside one spelling family
+		}
 		o.V = r.PickU64([]uint64{0, 1, cur - 1, cur, cur, cur + 1, cur + 1, cur + 100, 1 << 53, 1<<53 + 1, 1 << 63, 1<<64 - 1, 4000000000000000000})
 		switch x := r.Intn(20); {
 		case x < 14:
@@ -299,7 +315,7 @@ func subBurn(h burnHist, keep []int) burnHist {
 
 func mainBurn(o vh.Opts) {
 	rep := vh.NewReport("zcn", "C19", o)
-	rep.Rule = "random histories of 1-25 requests on the real zcnsc Execute (burn by 4 clients to 4 address strings, two of which differ only in case; " +
+	rep.Rule = "random histories of 1-25 requests on the real zcnsc Execute (burn by 4 clients to 8 target strings in spelling families (plain, upper/lower case, leading/trailing space, tab, newline, another address), interleaved; " +
 		"30% without a usable address: empty, missing field, malformed JSON, wrong type, nil input; values 0, 1, min-1, min, min+1, 2^53+1, 2^63, 2^64-1, MaxTokenSupply; " +
 		"1 in 8 update-global-config of min_burn by owner/stranger/unparsable; 1 in 5 histories start from a seeded nonce up to 2^63-40), each request in a " +
 		"transaction trie merged only on success like chain.updateState; non-trivial = a burn succeeded on an address burned to before and a burn was refused; distinct by full history"
@@ -337,6 +353,8 @@ func mainBurn(o vh.Opts) {
 	// directed: int64 wrap of the nonce (state not reachable by burns; model comparison only), letter case of addresses
 	handle(burnHist{Min: 1, Seed: []seedNonce{{0, 1<<63 - 1}}, Unreachable: true, Ops: []burnOp{{K: "burn", C: 0, V: 5, P: "addr", A: 0}, {K: "burn", C: 0, V: 5, P: "addr", A: 0}}})
 	handle(burnHist{Min: 1, Seed: []seedNonce{{0, 1<<63 - 2}}, Ops: []burnOp{{K: "burn", C: 0, V: 5, P: "addr", A: 0}}})
+	handle(burnHist{Min: 1, Ops: []burnOp{{K: "burn", C: 0, V: 5, P: "addr", A: 0}, {K: "burn", C: 0, V: 5, P: "addr", A: 0}, {K: "burn", C: 1, V: 5, P: "addr", A: 0},
+		{K: "burn", C: 1, V: 5, P: "addr", A: 3}, {K: "burn", C: 1, V: 5, P: "addr", A: 6}, {K: "burn", C: 2, V: 5, P: "addr", A: 0}, {K: "burn", C: 2, V: 5, P: "addr", A: 4}, {K: "burn", C: 2, V: 5, P: "addr", A: 3}}})
 	handle(burnHist{Min: 3, Ops: []burnOp{{K: "burn", C: 0, V: 3, P: "addr", A: 1}, {K: "burn", C: 1, V: 3, P: "addr", A: 2}, {K: "burn", C: 1, V: 2, P: "addr", A: 2}, {K: "burn", C: 0, V: 4, P: "addr", A: 1}}})
 	rnd := vh.NewRand(o.Seed).Fork() // Fork: NewRand(k) is NewRand(1) shifted by k-1 draws
 	for i := 0; i < o.N(500, 6000); i++ {
